@@ -6,10 +6,10 @@ V="$(cd "$(dirname "${BASH_SOURCE[0]}")/.." && pwd)"
 BIN=$(dirname "$(find /root/.rustup/toolchains/nightly-x86_64-unknown-linux-gnu -name llvm-profdata | head -1)")
 mkdir -p "$V/.build/cov/prof" "$V/.build/cov/evidence_backup"
 find "$V/.build/cov/prof" -name '*.profraw' -delete
-( cd "$V/harness" && RUSTFLAGS="-Cinstrument-coverage" CARGO_TARGET_DIR="$V/.build/cov" cargo +nightly build --release --offline --bin pv ) 2>&1 | tail -1
+( cd "$V/harness" && LLVM_PROFILE_FILE="$V/.build/cov/prof/build-%p.profraw.ignore" RUSTFLAGS="-Cinstrument-coverage" CARGO_TARGET_DIR="$V/.build/cov" cargo +nightly build --release --offline --bin pv ) 2>&1 | tail -1
 cp "$V"/evidence/*.json "$V/.build/cov/evidence_backup/"
 for c in C01 C02 C03 C04 C05 C06 C07 C08 C09 C10 C11 C12 C13 C14 C15 C16 C17 C18 C19 C20; do
-  RAYON_NUM_THREADS=4 PV_BUDGET_DIV=40 LLVM_PROFILE_FILE="$V/.build/cov/prof/$c-%p.profraw" PV_DIR="$V" PV_CLI="$V/.build/cli/release/packing" timeout 1200 "$V/.build/cov/release/pv" "$c" --tier quick 2>&1 | grep -E "^HELD|^VIOL|^INCON" | head -1
+  RAYON_NUM_THREADS=1 PV_BUDGET_DIV=200 LLVM_PROFILE_FILE="$V/.build/cov/prof/$c-%p.profraw" PV_DIR="$V" PV_CLI="$V/.build/cli/release/packing" timeout 1200 "$V/.build/cov/release/pv" "$c" --tier quick 2>&1 | grep -E "^HELD|^VIOL|^INCON" | head -1
 done
 cp "$V/.build/cov/evidence_backup/"*.json "$V/evidence/"
 "$BIN/llvm-profdata" merge -sparse "$V"/.build/cov/prof/*.profraw -o "$V/.build/cov/all.profdata"
